@@ -193,7 +193,7 @@ Lemma analyze_params tg s o d tg' :
   tg_params tg' = tg_params tg ++ lifted_of (no_deps_value o) s.
 Proof.
   intros H. unfold lifted_of. destruct (analyze_deps_kind _ _ _ _ _ H) as [(Hn & -> & Hk)|(_ & _ & _ & Hk)].
-  - rewrite Hk. unfold analyze_fn_deps in H. rewrite Hn in H. injection H as <-. apply deps_with_generics_params'.
+  - rewrite Hk. destruct (analyze_fn_deps_nodeps _ _ _ _ _ Hn H) as (_ & -> & _). apply deps_with_generics_params'.
   - unfold kind_agrees in Hk. destruct (deps_kind (no_deps_value o) s) as [[n|] b|t|].
     + destruct Hk as [Hf _]. unfold find_deps_generic_bounds in Hf.
       destruct (find_type_param n (p_items (g_params (s_gen s))) 0) as [[idx p]|] eqn:F; [|discriminate].
